@@ -110,7 +110,7 @@ PROPS = {
                                 p_hash_read=0.5, iters=0.2),
                 title="rollback erases the future"),
     "C04": dict(kind="v1hist", quick_n=1500, thorough_n=6000,
-                profile=Profile(p_prune=0.6, p_noop_version=0.4, check_all_versions=0.7, proofs=0.2, p_hash_read=0.3,
+                profile=Profile(p_hold=0.3, p_prune=0.6, p_noop_version=0.4, check_all_versions=0.7, proofs=0.2, p_hash_read=0.3,
                                 thrs=[120, 150, 150, 200, 300, 400, 0], caches=[0, 0, 0, 1, 3, 100],
                                 p_loadow=0.1, p_reopen=0.2, nkeys=5),
                 title="pruning safety"),
@@ -118,7 +118,7 @@ PROPS = {
                 profile=Profile(iters=1.0, imm_reads=["iter", "iterate", "irange", "irangeinc"],
                                 imm_reads_per_version=(1, 5), check_all_versions=0.1, big=0.1),
                 title="iterator contract"),
-    "C10": dict(kind="v1hist", quick_n=1200, thorough_n=6000, gen="c10", oracle=proof_oracle,
+    "C10": dict(kind="v1hist", quick_n=1200, thorough_n=6000, gen="c10", oracle=proof_oracle, bigimport=True,
                 profile=None, title="export/import fidelity, total importer"),
     "C15": dict(kind="v1hist", quick_n=1200, thorough_n=6000, oracle=lambda h, i, line, impl, orc: (
                     "replaying the extracted change sets does not reproduce the versions: " + impl
@@ -129,7 +129,7 @@ PROPS = {
     "C11": dict(kind="v1hist", quick_n=600, thorough_n=3000, gen="c11", oracle=c11_oracle, profile=None,
                 title="balance, rank, read cost"),
     "C12": dict(kind="v1hist", quick_n=1200, thorough_n=6000,
-                profile=Profile(dump=0.7, p_prune=0.5, p_noop_version=0.35, p_loadow=0.12, p_delfrom=0.05, p_reopen=0.2,
+                profile=Profile(p_hold=0.3, dump=0.7, p_prune=0.5, p_noop_version=0.35, p_loadow=0.12, p_delfrom=0.05, p_reopen=0.2,
                                 check_all_versions=0.1, p_hash_read=0.0, reads_per_version=(0, 1),
                                 imm_reads_per_version=(0, 1), meta_per_version=(0, 1), nkeys=5,
                                 thrs=[120, 150, 200, 300, 400, 0], caches=[0, 0, 1, 3, 100], empty_out=0.3),
@@ -143,7 +143,7 @@ PROPS = {
                                 thrs=[150, 200, 250, 300, 400, 600, 0], caches=[0, 0, 2, 100], dbs=["mem"],
                                 nkeys=6, p_load_old=0.0, ivs=[None, None, 1, 4]),
                 title="crash atomicity"),
-    "C17": dict(kind="v1hist", quick_n=600, thorough_n=4000, mode="fault", oracle=fault_oracle,
+    "C17": dict(kind="v1hist", quick_n=600, thorough_n=4000, mode="fault", oracle=fault_oracle, bigimport=True,
                 profile=Profile(versions=(2, 5), ops_per_version=(0, 4), p_prune=0.3, p_loadow=0.15, p_reopen=0.15,
                                 p_delfrom=0.0, check_all_versions=0.0, reads_per_version=(1, 3),
                                 imm_reads_per_version=(1, 3), meta_per_version=(0, 2), p_hash_read=0.1, iters=0.5,
@@ -167,7 +167,7 @@ PROPS = {
     "C06": dict(kind="v1hist", quick_n=1000, thorough_n=6000, mode="conc", gen="conc", oracle=conc_oracle, profile=None, stress=True,
                 title="concurrent readers"),
     "C14": dict(kind="v1hist", quick_n=1500, thorough_n=4000,
-                profile=Profile(meta_per_version=(2, 5), p_load_old=0.25, p_prune=0.3, p_reopen=0.25,
+                profile=Profile(p_hold=0.3, meta_per_version=(2, 5), p_load_old=0.25, p_prune=0.3, p_reopen=0.25,
                                 check_all_versions=0.2, p_noop_version=0.35),
                 title="version bookkeeping"),
 }
@@ -464,6 +464,17 @@ def run_check(prop, tier, seed, n_override=None):
                         "replay_cmd": "harness/v1/bin/h1race stress %d %d" % (sr["seed"], dur)})
                     print("VIOLATION property=%s replay=%s" % (prop, path))
                     break
+        big_runs = []
+        if cfg.get("bigimport"):
+            big_runs = C.run_bigimport([seed * 100 + i for i in range(4 if tier != "thorough" else 16)])
+            for br in big_runs:
+                if not br["ok"]:
+                    nviol += 1
+                    path = C.write_replay(prop, seed, nviol, {
+                        "property": prop, "kind": "large-import-under-write-fault", "bigimport_seed": br["seed"], "cfg": br["cfg"],
+                        "mismatches": br["mismatches"], "replay_cmd": "harness/v1/bin/h1 bigimport %d" % br["seed"]})
+                    print("VIOLATION property=%s replay=%s" % (prop, path))
+                    break
         if not violations and proof_broken:
             nviol += 1
             path = C.write_replay(prop, seed, nviol, {
@@ -490,6 +501,7 @@ def run_check(prop, tier, seed, n_override=None):
                 "samples": samples + ([{"theorem": thm}] if thm else []),
                 "known_findings_seen": sorted(reported),
                 "stress_runs": [{k: v for k, v in sr.items() if k != "race_report"} for sr in stress_runs],
+                "large_import_fault_runs": big_runs,
             },
             "assumptions": C.TRUSTED_BASE,
             "wall_s": round(time.time() - t0, 1),
